@@ -992,3 +992,7 @@ impl<T> Builder<T> {
         }
     }
 }
+
+#[cfg(kani)]
+#[path = "/verif/kani/builder.rs"]
+mod verif_kani;
